@@ -89,6 +89,13 @@ def eval_doc(args):
         return dict(doc=doc, ver=ver, problem=f'decode raised {type(e).__name__}: {e}')
     bad = []; check(data, root, {}, bad)
     if bad: return dict(doc=doc, ver=ver, problem=dict(path=bad[0][0], keys=bad[0][1], expected=bad[0][2]))
+    # user-supplied namespace maps that collide with the document's own declarations, alias them or cover them partly: the keys resolve with the user's map
+    # overlaid by the declarations the data reports
+    for um in ({'p': 'urn:v'}, {'p': 'urn:w', 'q': 'urn:u'}, {'z': 'urn:u'}, {'q': 'urn:w'}):       # (a user-supplied DEFAULT namespace cannot coexist with the no-namespace leaves of these documents: not judged)
+        try: d3 = s.decode(doc, validation='lax', namespaces=um)[0]
+        except Exception as e: return dict(doc=doc, ver=ver, problem=f'decode with namespaces={um} raised {type(e).__name__}: {e}')
+        b3 = []; check(d3, root, dict(um), b3)
+        if b3: return dict(doc=doc, ver=ver, problem=dict(user_map=um, path=b3[0][0], keys=b3[0][1], expected=b3[0][2]))
     # encode restores the expanded names.  Decided for documents of at most three element levels; deeper documents are reported only:
     # below a wildcard-matched grandchild the encoder loses track of the nesting level and pops xmlns contexts too early (an open
     # defect outside the three-level scope, see DESIGN.md)
